@@ -257,6 +257,73 @@ def r17_5(ctx):
         ctx.violations = [o for o in ctx.obligations if not o["ok"]]
 
 
-RULES = [("R17.1", r17_1), ("R17.2", r17_2), ("R17.3", r17_3), ("R17.3b", r17_3b), ("R17.4", r17_4), ("R17.5", r17_5)]
-MULTI_CONFIG_RULES = ("R17.1", "R17.2", "R17.3", "R17.3b", "R17.4", "R17.5")
+def r17_6(ctx):
+    """the 16-digit accumulator of every backend honours the caller's limit: the digit count it returns is never a constant
+    and always derives from the `need` parameter (the portable loop stops at `need`; a vector version that returns more
+    digits than asked makes the caller overflow its significand on that backend only)"""
+    for c in configs(ctx):
+        prog = ctx.prog(c)
+        fs = [f for f in prog.fns.values() if f.crate == "sonic_number" and f.name == "simd_str2int" and f.kind != "Closure"]
+        if len(fs) != 1:
+            ctx.ob("R17.6", f"{c}:simd_str2int", False, "", f"expected one simd_str2int in configuration {c}, found {len(fs)} (fail closed)")
+            continue
+        f = fs[0]
+        from ..analysis import control_deps
+        cdeps = control_deps(f)
+
+        def depends_on_need(l):
+            """data dependence on `need`, or every increment of the counter is control-dependent on a test that involves it"""
+            sl, leaves = backward_slice(f, [l]) if l is not None else (set(), [])
+            if any(lf[0] == "param" and lf[1] == 2 for lf in leaves):
+                return True
+            # counters: locals of the slice that are updated by an addition
+            for bb, ii, ss in f.assigns():
+                if ss["lhs"][0] in sl | {l} and ss["rv"]["k"] == "binop" and ss["rv"]["op"].startswith("Add"):
+                    guarded = False
+                    trans = set()
+                    work = [bb]
+                    while work:
+                        x = work.pop()
+                        for (sb, taken) in cdeps.get(x, ()):
+                            if (sb, taken) not in trans:
+                                trans.add((sb, taken))
+                                work.append(sb)
+                    for (sb, taken) in trans:
+                        t = f.d["blocks"][sb]["term"]
+                        dl = op_local(t["discr"]) if t["k"] == "switch" else None
+                        s2, lv2 = backward_slice(f, [dl]) if dl is not None else (set(), [])
+                        if any(lf[0] == "param" and lf[1] == 2 for lf in lv2):
+                            guarded = True
+                    if not guarded:
+                        return False
+                    return True
+            return False
+        rets = [(b, i, st) for b, i, st in f.assigns() if st["lhs"] == [0, []] and st["rv"]["k"] == "agg"]
+        # the count may also be written field by field
+        parts = [(b, i, st) for b, i, st in f.assigns() if st["lhs"][0] == 0 and [e[2] for e in st["lhs"][1] if isinstance(e, list) and e[0] == "."] == ["1"]]
+        ok = bool(rets or parts)
+        why = []
+        for b, i, st in rets:
+            o = st["rv"]["f"][1]
+            if o["k"] == "const":
+                ok = False
+                why.append(f"returns the constant count {op_int(o)}")
+                continue
+            dep = depends_on_need(op_local(o))
+            why.append("count derives from `need`" if dep else "count does not depend on `need`")
+            ok = ok and dep
+        for b, i, st in parts:
+            rv = st["rv"]
+            o = rv.get("op")
+            if rv["k"] == "use" and o["k"] == "const":
+                ok = False
+                why.append(f"returns the constant count {op_int(o)}")
+                continue
+            dep = depends_on_need(op_local(o) if o else None)
+            ok = ok and dep
+        ctx.ob("R17.6", f"{c}:simd_str2int:count-bounded-by-need", ok, f.loc(), f"{len(rets) + len(parts)} return site(s): " + "; ".join(sorted(set(why))))
+
+
+RULES = [("R17.1", r17_1), ("R17.2", r17_2), ("R17.3", r17_3), ("R17.3b", r17_3b), ("R17.4", r17_4), ("R17.5", r17_5), ("R17.6", r17_6)]
+MULTI_CONFIG_RULES = ("R17.1", "R17.2", "R17.3", "R17.3b", "R17.4", "R17.5", "R17.6")
 THOROUGH_CONFIGS = []
